@@ -311,6 +311,8 @@ func checkC06(c *Ctx) {
 	c.checkSignContext(regs)
 	c.checkOperandStackEnds()
 	c.checkSelectorReparse()
+	// whether a - or + is a sign or an operator is decided by looking back through the lexer's ring of recent runes
+	c.checkLookbackRing("C06-RING")
 }
 
 func exprSpaced(e ast.Expr) string {
